@@ -488,6 +488,47 @@ func c08One(c *ctx, inp *bgzfInput, d *Driver, impl *[]string) {
 		}
 		d.add("c01.write %s", strings.Join(in.Ops, ","))
 		*impl = append(*impl, fmt.Sprintf("%s|%s|%d", strings.Join(wr.results, ","), intsJoin(plens), wr.lastNext))
+		// the script abstraction of the writer LTS (WriterAbs.absScript, what the byte-determinism theorems compose
+		// with) against (i) the Go re-implementation `wSim` the C12/C09 harness builds its abstract scripts with,
+		// (ii) the implementation itself: Writer.Next() != 0 before every Flush, and the number of data members written
+		{
+			sim := &wSim{}
+			var abs []string
+			flags := ""
+			closedSeen := false
+			for i, k := range kinds {
+				switch k {
+				case 'w':
+					if closedSeen {
+						abs = append(abs, "w0")
+					} else {
+						abs = append(abs, fmt.Sprintf("w%d", sim.write(lens[i])))
+					}
+				case 'f':
+					f := !closedSeen && sim.flush()
+					if f {
+						abs = append(abs, "f1")
+					} else {
+						abs = append(abs, "f0")
+					}
+					if wr.nexts[i] > 0 {
+						flags += "1"
+					} else {
+						flags += "0"
+					}
+				case 't':
+					abs = append(abs, "wt")
+				case 'c':
+					closedSeen = true
+					abs = append(abs, "c")
+				}
+			}
+			if flags == "" {
+				flags = "-"
+			}
+			d.add("c08.abs %s", strings.Join(in.Ops, ","))
+			*impl = append(*impl, fmt.Sprintf("%s|%s|%d", strings.Join(abs, ","), flags, len(plens)))
+		}
 	} else {
 		// the block that was refused: the single write's payload (or the empty block when it is absent)
 		d.add("c08.member %s %d %d %d %s", hargs, xfl, len(want), crc32.ChecksumIEEE(want), hexs(flateOf(in.Level, want)))
